@@ -42,6 +42,15 @@ type OpA struct {
 	Reason uint32 `json:"reason,omitempty"` // fs close: 0 finished, 1 removed
 	Found  bool   `json:"found,omitempty"`  // xfer: the Demon's "Found" flag
 	Text   string `json:"text,omitempty"`
+	// bulk steps (scale_test.go): bopen bwrite bclose breopen bshot
+	N        int    `json:"n,omitempty"`         // how many items / rounds / chunks / repetitions
+	Stride   uint32 `json:"stride,omitempty"`    // bopen: file id of item k is FID + k*Stride
+	Sz       int    `json:"sz,omitempty"`        // ordinary chunk length of a bulk step
+	Big      int    `json:"big,omitempty"`       // length of the large chunks (0 = none) …
+	BigEvery int    `json:"big_every,omitempty"` // … every BigEvery-th chunk of the step is a large one
+	Mode     int    `json:"mode,omitempty"`      // see expand()
+	Pick     int    `json:"pick,omitempty"`      // index into the agent's list of open downloads
+	Spread   bool   `json:"spread,omitempty"`    // items go to all agents in turn, starting with Ag
 }
 
 // name returns the file name of an open step.
@@ -64,6 +73,9 @@ type CaseA struct {
 	Agents []string `json:"agents"` // NameIDs (%x of a 32-bit id)
 	Decoys bool     `json:"decoys"` // pre-create prefix-sharing siblings and a foreign agent folder
 	Ops    []OpA    `json:"ops"`
+	// scale: Extra further agents with derived ids (ExtraBase + k*0x9e3779b1, %x)
+	Extra     int    `json:"extra,omitempty"`
+	ExtraBase uint32 `json:"extra_base,omitempty"`
 }
 
 const decoyAgent = "c0ffee"
@@ -109,7 +121,7 @@ func genA(t *rapid.T) CaseA {
 		}
 		return l
 	}
-	for i := 0; i < nops; i++ {
+	ord := func() OpA {
 		var op OpA
 		op.Ag = rapid.IntRange(0, na-1).Draw(t, "ag")
 		own := c.Agents[op.Ag]
@@ -172,7 +184,32 @@ func genA(t *rapid.T) CaseA {
 			op.Via = rapid.SampledFrom([]string{"input", "raw", "output"}).Draw(t, "logvia")
 			op.Text = rapid.StringMatching(`[a-z]{1,8}( [a-z]{1,6})?`).Draw(t, "text")
 		}
-		c.Ops = append(c.Ops, op)
+		return op
+	}
+	// the SCALE dimension: about one case in a hundred carries bulk steps (threshold-adjacent counts)
+	// between the ordinary ones (rapid draws the upper bound of a range in ~3 % of the cases)
+	// (the thorough tier, with 1.6 million cases and larger counts per case, takes one in two hundred)
+	scaleDen := 2
+	if core.Tier() == "thorough" {
+		scaleDen = 5
+	}
+	if rapid.IntRange(0, 99).Draw(t, "scale") == 99 && rapid.IntRange(0, scaleDen).Draw(t, "scale2") == 1 {
+		genScaleOps(t, &c, na, ord, func(ag int, ids []uint32) {
+			for _, f := range ids {
+				known := false
+				for _, g := range fids {
+					known = known || g == f
+				}
+				if !known {
+					fids = append(fids, f)
+				}
+				simOpen[xkey{ag, f}] = true
+			}
+		})
+		return c
+	}
+	for i := 0; i < nops; i++ {
+		c.Ops = append(c.Ops, ord())
 	}
 	return c
 }
@@ -235,6 +272,7 @@ func fsAllowsCreate(dlDir string, comps []string) bool {
 type xfer struct {
 	target  string
 	content []byte
+	chunks  int // chunks received so far (bulk steps derive the bytes of a chunk from it)
 }
 type xkey struct {
 	ag  int
@@ -249,7 +287,8 @@ func checkA(c CaseA) *core.Violation {
 	defer w.close()
 	rec := tsx.NewRecorder()
 	var agents []*agent.Agent
-	for _, id := range c.Agents {
+	ids := c.ids()
+	for _, id := range ids {
 		agents = append(agents, &agent.Agent{NameID: id, Active: true})
 	}
 	defer func() {
@@ -262,7 +301,7 @@ func checkA(c CaseA) *core.Violation {
 		}
 	}()
 	if c.Decoys {
-		for _, id := range c.Agents {
+		for _, id := range ids {
 			mustMkdir(w.agentDir(id) + "/Downloads")
 			mustWrite(w.agentDir(id)+"/Download_x/keep", []byte("decoy"))
 			mustMkdir(w.agentDir(id) + "/Screenshots_x")
@@ -273,7 +312,26 @@ func checkA(c CaseA) *core.Violation {
 	w.snap = takeSnapshot(w.base)
 
 	open := map[xkey]*xfer{}
+	order := map[int][]uint32{}   // per agent: the open file ids, oldest first (what a bulk step walks)
 	expect := map[string][]byte{} // every download file ever bound to a transfer -> bytes it must hold
+	bytesLeft := byteBudget()
+	bind := func(key xkey, x *xfer) {
+		open[key] = x
+		order[key.ag] = append(order[key.ag], key.fid)
+	}
+	unbind := func(key xkey) {
+		if _, ok := open[key]; !ok {
+			return
+		}
+		delete(open, key)
+		l := order[key.ag]
+		for i, f := range l {
+			if f == key.fid {
+				order[key.ag] = append(append([]uint32{}, l[:i]...), l[i+1:]...)
+				break
+			}
+		}
+	}
 	req := uint32(1000)
 	dispatch := func(a *agent.Agent, cmd uint32, body []byte) {
 		req++
@@ -282,10 +340,11 @@ func checkA(c CaseA) *core.Violation {
 		rec.Take()
 	}
 	be32 := func(v uint32) []byte { return binary.BigEndian.AppendUint32(nil, v) }
+	env := &bulkEnv{w: w, agents: agents, ids: ids, open: open, order: order, expect: expect, bind: bind, unbind: unbind, dispatch: dispatch, bytesLeft: &bytesLeft}
 
 	for i, op := range c.Ops {
 		ai := ((op.Ag % len(agents)) + len(agents)) % len(agents)
-		a, id := agents[ai], c.Agents[ai]
+		a, id := agents[ai], ids[ai]
 		dl := w.dlDir(id)
 		key := xkey{ai, op.FID}
 		desc := fmt.Sprintf("%s via %s agent %s fid %#x", op.K, op.Via, id, op.FID)
@@ -366,7 +425,7 @@ func checkA(c CaseA) *core.Violation {
 				if b, ok := w.snap.files[target]; !ok || len(b) != 0 {
 					return core.V("DownloadAdd|open-no-file", "step %d (%s): transfer accepted but %s is not a fresh empty file (exists=%v, %d bytes)", i, desc, w.rel(target), ok, len(b))
 				}
-				open[key] = &xfer{target: target}
+				bind(key, &xfer{target: target})
 				expect[target] = nil
 			} else if must {
 				return core.V("DownloadAdd|rejected-plain-name", "step %d (%s): a plain relative name inside the download folder was not accepted", i, desc)
@@ -416,8 +475,17 @@ func checkA(c CaseA) *core.Violation {
 			if v := w.judge(i, desc, p); v != nil {
 				return v
 			}
-			delete(open, key)
+			unbind(key)
 			lastWriter = "DownloadClose"
+
+		case "bopen", "bwrite", "bclose", "breopen", "bshot":
+			// a bulk step (scale_test.go): many primitive calls, ONE walk of the tree afterwards
+			v, wr := env.run(i, op, ai)
+			if v != nil {
+				return v
+			}
+			desc = fmt.Sprintf("bulk step %s agent %s n=%d", op.K, id, op.N)
+			lastWriter = wr
 
 		case "xfer":
 			// COMMAND_TRANSFER acknowledgements (Command.c:2611-2736 CommandTransfer): they report
@@ -530,15 +598,50 @@ func classifyA(c CaseA) core.Class {
 	xferOnOpen, writeAfterStop := false, false
 	disguised := false
 	maxOpen := 0
-	na := len(c.Agents)
+	na := len(c.ids())
 	if na == 0 {
 		na = 1
 	}
-	for _, op := range c.Ops {
+	sc := newScaleStats()
+	sim := map[int][]uint32{}
+	bytesLeft := byteBudget()
+	for idx, op := range c.Ops {
 		ai := ((op.Ag % na) + na) % na
 		key := xkey{ai, op.FID}
-		cl.Labels = append(cl.Labels, "op:"+op.K)
+		if !isBulk(op.K) {
+			cl.Labels = append(cl.Labels, "op:"+op.K)
+		}
+		if !isBulk(op.K) && sc.cnt[ai] >= 63 {
+			sc.ordWhile = max(sc.ordWhile, sc.cnt[ai])
+		}
 		switch op.K {
+		case "bopen", "bwrite", "bclose", "breopen", "bshot":
+			for _, m := range expand(op, idx, ai, na, sim, &bytesLeft) {
+				k := xkey{m.ag, m.fid}
+				sc.touched[m.ag] = true
+				switch m.k {
+				case 'o':
+					if !open[k] {
+						open[k] = true
+						sc.noteOpen(k)
+					}
+				case 'w':
+					if open[k] {
+						sc.noteWrite(k, m.n, true)
+					} else {
+						sc.strayBulk = true
+					}
+				case 'c':
+					if open[k] {
+						delete(open, k)
+						delete(stopped, k)
+						sc.noteClose(k)
+					}
+				case 's':
+					sc.shots++
+				}
+			}
+			sc.agents = max(sc.agents, len(sc.touched))
 		case "open":
 			vias[op.Via] = true
 			cl.Labels = append(cl.Labels, "via:"+op.Via)
@@ -555,6 +658,8 @@ func classifyA(c CaseA) core.Class {
 				cl.Labels = append(cl.Labels, "open:target-inside")
 				if !open[key] {
 					open[key] = true
+					sim[ai] = append(sim[ai], op.FID)
+					sc.noteOpen(key)
 				}
 			case where(dl, tgt) == "prefix-sibling":
 				cl.Labels = append(cl.Labels, "open:target-in-prefix-sibling")
@@ -577,6 +682,7 @@ func classifyA(c CaseA) core.Class {
 				cl.Labels = append(cl.Labels, "stray-"+op.K)
 			} else if op.K == "write" {
 				cl.Labels = append(cl.Labels, "write-to-open-transfer")
+				sc.noteWrite(key, len(op.Data), false)
 				if stopped[key] {
 					writeAfterStop = true
 					cl.Labels = append(cl.Labels, "write-after-stop-ack")
@@ -588,6 +694,15 @@ func classifyA(c CaseA) core.Class {
 				}
 			}
 			if op.K == "close" {
+				if open[key] {
+					sc.noteClose(key)
+					for i, f := range sim[ai] {
+						if f == op.FID {
+							sim[ai] = append(append([]uint32{}, sim[ai][:i]...), sim[ai][i+1:]...)
+							break
+						}
+					}
+				}
 				delete(open, key)
 				delete(stopped, key)
 			}
@@ -612,20 +727,23 @@ func classifyA(c CaseA) core.Class {
 	if maxOpen > 3 {
 		maxOpen = 3
 	}
-	cl.NonTrivial = anyName.dotdot || anyName.mixed || anyName.prefixSib || interleaved || writeAfterStop || disguised
-	cl.Fingerprint = fmt.Sprintf("ag=%d|dd=%v|mix=%v|sib=%v|open=%d|il=%v|stray=%v|xfer=%v|was=%v", len(c.Agents), anyName.dotdot, anyName.mixed, anyName.prefixSib, maxOpen, interleaved, stray, xferOnOpen, writeAfterStop) + fmt.Sprintf("|dis=%v", disguised)
+	scLabels, scFP := sc.labels()
+	cl.Labels = append(cl.Labels, scLabels...)
+	cl.NonTrivial = anyName.dotdot || anyName.mixed || anyName.prefixSib || interleaved || writeAfterStop || disguised || len(scLabels) > 0
+	cl.Fingerprint = fmt.Sprintf("ag=%d|dd=%v|mix=%v|sib=%v|open=%d|il=%v|stray=%v|xfer=%v|was=%v", len(c.Agents), anyName.dotdot, anyName.mixed, anyName.prefixSib, maxOpen, interleaved, stray, xferOnOpen, writeAfterStop) + fmt.Sprintf("|dis=%v", disguised) + scFP
 	return cl
 }
 
 func TestC07a(t *testing.T) {
 	core.Run(t, core.Spec[CaseA]{
 		Property: "C07", Sub: "a",
-		Rule: "1-2 Demon agents, 1-4 file ids, 1-24 steps of open/write/close (also for unknown and closed ids)/screenshot/console-log/transfer-control acknowledgement (COMMAND_TRANSFER list, stop, resume, remove and the remove follow-up package, Found true/false, for open, unknown and closed file ids of either agent), each delivered via the real TaskDispatch as COMMAND_FS download callbacks, as BEACON_OUTPUT CALLBACK_FILE* callbacks (reference-encoded as the Demon does) or by calling DownloadAdd/Write/Close; names from a path grammar (.., ., empty, Download/Downloads/Download_x/Down, Screenshots*, own and foreign agent ids, 300-char, NUL, C:, UNC; separators / \\ // \\\\ /\\ \\/, leading/trailing); half of the names are then DECORATED: removable / normalisable characters at generated positions inside components (NUL and NUL runs as in '.\\x00.' '..\\x00' '\\x00..', U+200B, U+FEFF, soft hyphen, tab, space, trailing dot / space, %2e %2f %5c escapes, overlong and invalid UTF-8 bytes; names that are not UTF-8 travel as bytes). For a decorated name any ONE new file inside the agent's Download folder is accepted as its target (the oracle is the tree walk, not an interpretation of the name). Oracle after every step: recursive listing (with contents) of a root four levels above the loot root; every created/changed file is the step's own target inside agents/<id>/Download (resp. Screenshots/Desktop_*.png, Console_<id>.log), every created directory is agents/<id>, its Download/Screenshots folder or inside the Download folder; each download file equals the concatenation of the chunks of the transfer that created it; stray writes/closes change nothing; a transfer-control acknowledgement changes nothing on disk and does not end the transfer (chunks that follow a stop/resume/remove acknowledgement are appended as before); plain names must be accepted. Non-trivial: a name with .., mixed/doubled separators or a prefix-sharing sibling, or a write while >=2 transfers of the agent are open, or a chunk after a stop/remove acknowledgement, or a decorated component that a normalisation would turn into '..'; distinct = (#agents, dotdot, sepmix, sibling, max open, interleaved, stray, ack on open transfer, write after stop, disguised dot-dot)",
+		Rule: "1-2 Demon agents, 1-4 file ids, 1-24 steps of open/write/close (also for unknown and closed ids)/screenshot/console-log/transfer-control acknowledgement (COMMAND_TRANSFER list, stop, resume, remove and the remove follow-up package, Found true/false, for open, unknown and closed file ids of either agent), each delivered via the real TaskDispatch as COMMAND_FS download callbacks, as BEACON_OUTPUT CALLBACK_FILE* callbacks (reference-encoded as the Demon does) or by calling DownloadAdd/Write/Close; names from a path grammar (.., ., empty, Download/Downloads/Download_x/Down, Screenshots*, own and foreign agent ids, 300-char, NUL, C:, UNC; separators / \\ // \\\\ /\\ \\/, leading/trailing); half of the names are then DECORATED: removable / normalisable characters at generated positions inside components (NUL and NUL runs as in '.\\x00.' '..\\x00' '\\x00..', U+200B, U+FEFF, soft hyphen, tab, space, trailing dot / space, %2e %2f %5c escapes, overlong and invalid UTF-8 bytes; names that are not UTF-8 travel as bytes). For a decorated name any ONE new file inside the agent's Download folder is accepted as its target (the oracle is the tree walk, not an interpretation of the name). Oracle after every step: recursive listing (with contents) of a root four levels above the loot root; every created/changed file is the step's own target inside agents/<id>/Download (resp. Screenshots/Desktop_*.png, Console_<id>.log), every created directory is agents/<id>, its Download/Screenshots folder or inside the Download folder; each download file equals the concatenation of the chunks of the transfer that created it; stray writes/closes change nothing; a transfer-control acknowledgement changes nothing on disk and does not end the transfer (chunks that follow a stop/resume/remove acknowledgement are appended as before); plain names must be accepted. Non-trivial: a name with .., mixed/doubled separators or a prefix-sharing sibling, or a write while >=2 transfers of the agent are open, or a chunk after a stop/remove acknowledgement, or a decorated component that a normalisation would turn into '..'; distinct = (#agents, dotdot, sepmix, sibling, max open, interleaved, stray, ack on open transfer, write after stop, disguised dot-dot) SCALE (about 1 case in 100; thorough tier 1 in 200): BULK steps stand between the ordinary ones (ordinary steps come before, between and after them and also address ids a bulk step opened); every bulk step is a loop of the same real calls (TaskDispatch COMMAND_FS / BEACON_OUTPUT callbacks or the Download* API, one or all three in turn) whose counts come from the threshold-adjacent pool {63,64,65,127,128,129,255,256,257,511,512,513,999,1000,1001,1023,1024,1025 | 2047,2048,2049,4095,4096,4097 | 8191,8192,8193}: bopen = N downloads opened for one agent (N up to 1025 in the quick tier, 2049 in the thorough tier; several bopen steps per case, at most ~2100 opens, plus 'one to three more' after a threshold-adjacent count; file ids FID+k*stride over the whole 32-bit range with strides 1, 2, 0x10000, a large odd number and -1; names distinct per id, in 0-3 nested folders, joined by / or \\ or both, one in eight optionally decorated with a terminating NUL / U+200B / trailing dot / trailing space; optionally with the step index in the name so that a re-opened id gets a fresh file) and, interleaved with the opens, a chunk after every open for the download just opened / for the next download in a round robin over everything the agent has open / for the agent's OLDEST open download; bwrite = 1-3 rounds of one chunk for every open download (oldest first or newest first), or a burst of N chunks (N up to 4097 quick, 8193 thorough) for ONE download picked by index, or N chunks each for the oldest, the middle and the newest in turn (N up to 2049), optionally a chunk for an id that is not open after every 16th chunk; chunk lengths 0-24 and, in a share of the steps, 0, 1, 65535, 65536 and 1 MiB (every chunk of a short burst or every k-th of a long one; a case sends at most 4 MiB in the quick tier, 16 MiB in the thorough tier - beyond that the chunks fall back to the short length); bclose = closes for everything open (oldest first, newest first, every second, the oldest N, all but the oldest N; optionally closes for ids that are not open in between); breopen = one id (an open one picked by index, or a new one) closed and opened again N times (N up to 1025) with a chunk after every open, into the same file name or a fresh one per generation; bshot = N screenshot callbacks (N up to 129 quick - a callback costs ~0.5 ms - 1025 thorough); in one scale case out of four the case has 63-513 (thorough: -1025) FURTHER agents with derived ids and bulk steps may SPREAD their items over all agents in turn. The number of downloads the model lets be open at once is cut at RLIMIT_NOFILE-512 of the test process (TestMain raises the soft limit to the hard one; 20000 here, so nothing is cut; opens beyond it are skipped). Oracle at scale = the same model and permit judge: the tree is walked ONCE after the whole bulk step (checkpoint right after the count is reached) - every created/changed file is a target of this step inside agents/<id>/Download and holds exactly the concatenation of the chunks sent for its id since it was opened, every new directory is agents/<id>, its Download/Screenshots folder or inside Download, nothing else changed; plain names must be accepted; for a decorated bulk name the file the transfer reports is taken as its target if it lies inside the Download folder (the walk verifies it) - and after every ordinary step as before, so every finished and every still open file is re-compared at each later step. Labels scale:<what>:<bucket> (buckets 64-129 = 63..254, 255-513 = 255..998, 999-1025 = 999..2046, 2047-4097, 8191+) for downloads-open-at-once (per agent), chunks-per-download, reopens-of-one-id, screenshots, agents-writing-loot, chunk-for-early-download-after-more-opens (a download that already had a chunk receives another one after >= 63 further opens of its agent; bucket = downloads open at that moment); the driver keeps the 60 most frequent labels only, therefore the COMPLETE scale histogram of each shard (these classes plus scale:cases, scale:ordinary-step-while-open:<bucket>, scale:chunk-size:<0|1|65535|65536|1048576>, scale:file-size:<class>, scale:chunks-for-unknown-id-in-bulk) is published as extra 'c07a.scale_classes.<shard>' of the evidence; a scale case is non-trivial and adds (open bucket, chunk bucket, early-chunk) to the distinct key",
 		Gen:  genA, Check: checkA, Classify: classifyA,
 		Assumptions: []string{
 			"file ids and target files of simultaneously open transfers of one agent differ (steps violating this are skipped)",
 			"a name contains at most 7 '..' components so that nothing can leave the observed tree",
 			"FS-path names lose leading/trailing NULs in the UTF-16 reader by contract; screenshot content is not compared (only its location)",
+			"scale: at most RLIMIT_NOFILE-512 downloads are open at once in one case (the teamserver keeps one handle per open download); bulk opens beyond that are skipped",
 		},
 	})
 }
